@@ -108,12 +108,24 @@ def replay(ck, em, rec, rng, p_rel, affines):
     ubm = make_gmm(em, s["ubm"])
     if s["ukind"] == "map":
         arg = make_gmm(em, s["mapown"], trainer="map", ubm=ubm)
+    elif s.get("mapown") and rng.random() < 0.4:
+        # a maximum-likelihood machine that was constructed from another machine (warm start) and then given
+        # the UBM's parameters: it is not MAP-adapted, so scoring must expand around ITS OWN parameters
+        other = make_gmm(em, s["mapown"])
+        other.means = np.asarray(other.means) + 1.5          # (in a "plain" scenario mapown equals the UBM)
+        other.variances = np.asarray(other.variances) * 2.0
+        arg = em.GMMMachine(n_gaussians=ubm.means.shape[0], trainer="ml", ubm=other)
+        arg.means = np.array(ubm.means)
+        arg.variances = np.array(ubm.variances)
     else:
         arg = ubm
     means = np.array([mat(m["means"]) for m in s["models"]])
     machines = [make_gmm(em, m) for m in s["models"]]
     tn = [(int(fr(st["t"])), np.array([float(fr(v)) for v in st["n"]]), mat(st["f"])) for st in s["stats"]]
     stats = [make_stat(em, *x) for x in tn]
+    from ..common import relayout
+    for st in stats:
+        st.sum_px = relayout(st.sum_px, rng)
     offs = [mat(o) for o in s["offs"]["val"]] if s["offs"]["present"] else None
 
     def call(models, ubm_arg, sts, off, nrm, off_form=0):
